@@ -86,7 +86,14 @@ def run(ck, tier):
             # seeded uniformly random multi-byte substitutions (not part of the enumerated family)
             rt, rm = wirelib.random_tasks(ck.rng, rows, proofs, 0, 500, 0)
             tasks += rt
-            muts = muts + [{"c": m["c"], "cls": m["cls"], "fld": "-", "grp": "-", "e": [], "raw": t["b"]} for t, m in zip(rt, rm)]
+            # a random substitution is named by the grammar fields it touches (honest field map), so that a
+            # finding is identified by WHAT was changed and not by the operator that happened to change it
+            def touched(ci, raw):
+                honest, b = bytes.fromhex(proofs[ci]["hex"]), bytes.fromhex(raw)
+                offs = [i for i in range(min(len(honest), len(b))) if honest[i] != b[i]]
+                names = sorted({f["n"] for f in proofs[ci]["map"] for o in offs if f["o"] <= o < f["o"] + f["l"]})
+                return "+".join(names) if names else "-"
+            muts = muts + [{"c": m["c"], "cls": m["cls"], "fld": touched(m["c"], t["b"]), "grp": "-", "e": [], "raw": t["b"]} for t, m in zip(rt, rm)]
         results, restarts = wirelib.run_workers(binary, ppath, tasks, "c04", par=4)
         wirelib.check_inputs(muts[:n_enum], results[:n_enum], [bytes.fromhex(p["hex"]) for p in proofs])
     finally:
@@ -132,7 +139,10 @@ def replay(ck, path):
     proofs, ppath = wirelib.honest_proofs(ck, binary, [row], "c04r")
     try:
         m = dict(m, c=0)
-        tasks = [{"k": "mut", "c": 0, "e": m["e"], "acc": variants_for(m)}]
+        if m.get("raw"):
+            tasks = [{"k": "raw", "c": 0, "b": m["raw"], "acc": ["optset", "conj", "proven"]}]
+        else:
+            tasks = [{"k": "mut", "c": 0, "e": m["e"], "acc": variants_for(m)}]
         results, _ = wirelib.run_workers(binary, ppath, tasks, "c04r", par=1)
     finally:
         os.unlink(ppath)
